@@ -174,6 +174,13 @@ func (p *Program) computeProtected() {
 				if n, ok := pt.Elem().(*types.Named); ok && f.Pkg != nil && n.Obj().Pkg() == f.Pkg.Pkg {
 					if _, isStruct := n.Underlying().(*types.Struct); isStruct && sig.Recv() == nil {
 						prot = true
+						// an unexported constructor with a single call site is that caller's own literal moved
+						// into a function: a helper
+						// (only when that site lies in a loop: objects made once per function call - the
+						// per-connection table, the stream wrapper - are addressed by the rules as calls)
+						if f.Object() != nil && !f.Object().Exported() && p.staticCallSites(f) == 1 && p.soleSiteInLoop(f) {
+							prot = false
+						}
 					}
 				}
 			}
@@ -194,6 +201,41 @@ func (p *Program) computeProtected() {
 			p.prot[f] = true
 		}
 	}
+}
+
+// staticCallSites: the number of static calls of f outside tests; -1 if f is also reached dynamically or by go/defer.
+func (p *Program) staticCallSites(f *ssa.Function) int {
+	node := p.CallGraph().Nodes[f]
+	if node == nil {
+		return 0
+	}
+	n := 0
+	for _, e := range node.In {
+		c := e.Caller.Func
+		if c == nil || e.Site == nil || p.isTestFile(c.Pos()) {
+			continue
+		}
+		if _, isCall := e.Site.(*ssa.Call); !isCall || e.Site.Common().StaticCallee() != f {
+			return -1
+		}
+		n++
+	}
+	return n
+}
+
+func (p *Program) soleSiteInLoop(f *ssa.Function) bool {
+	node := p.CallGraph().Nodes[f]
+	if node == nil {
+		return false
+	}
+	for _, e := range node.In {
+		c := e.Caller.Func
+		if c == nil || e.Site == nil || p.isTestFile(c.Pos()) {
+			continue
+		}
+		return blockReachFromSelf(e.Site.Block())
+	}
+	return false
 }
 
 // reachesPrimitive: f performs a call satisfying prim itself or through unexported callees of its package
